@@ -41,7 +41,7 @@ def spawn_shape(b, name='spawn', cls=SPAWNBASE, extra=None, loop=False, defaults
                       timeout=b.opt('spawn.timeout', lambda: b.real('spawn.timeout')))
     if extra:
         fields.update(extra(b, kind))
-    return b.obj(name, cls, closed=False, **fields), kind
+    return b.obj(name, cls, sealed=False, **fields), kind
 
 
 def searcher_shape(b, lookback=False):
@@ -50,4 +50,4 @@ def searcher_shape(b, lookback=False):
                   start=b.any('start0'), end=b.any('end0'), match=b.any('smatch0'))
     if lookback and b.choice('searcher.longest_string?', ['absent', 'present']) == 'present':
         fields['longest_string'] = b.int('longest_string')
-    return b.obj('searcher', 'iface:searcher', closed=True, **fields)
+    return b.obj('searcher', 'iface:searcher', sealed=True, **fields)
